@@ -35,4 +35,15 @@ Definition impl_normsq_t (T : ttensor V) : V :=
   then let Vs := map (fun Uc : @matrix V * nat => mm v0 vadd vmul (fst Uc) (fst Uc) (snd Uc) (nrows (fst Uc)) (snd Uc) true) (combine Us cs) in
        impl_innerprod_dense v0 vadd vmul (ttm_seq v0 vadd vmul (tcore T) (all_modes cs Vs) false) (tcore T)
   else impl_normsq_dense v0 vadd vmul (impl_full_t T).
+
+(* ttensor.innerprod(ttensor) (ttensor.py:307): the operand with the smaller core comes first (otherwise other.innerprod(self));
+   W_n = U_n.T.dot(U'_n); J = other.core.ttm(W); self.core.innerprod(J) *)
+Definition impl_innerprod_tt_core (T T' : ttensor V) : V :=
+  let cs := dshape (tcore T) in
+  let Ws := map (fun UU : @matrix V * @matrix V * (nat * nat) =>
+                   mm v0 vadd vmul (fst (fst UU)) (snd (fst UU)) (fst (snd UU)) (nrows (fst (fst UU))) (snd (snd UU)) true)
+                (combine (combine (tfactors T) (tfactors T')) (combine cs (dshape (tcore T')))) in
+  impl_innerprod_dense v0 vadd vmul (tcore T) (ttm_seq v0 vadd vmul (tcore T') (all_modes cs Ws) false).
+Definition impl_innerprod_tt (T T' : ttensor V) : V :=
+  if size (dshape (tcore T')) <? size (dshape (tcore T)) then impl_innerprod_tt_core T' T else impl_innerprod_tt_core T T'.
 End TF.
